@@ -228,7 +228,10 @@ func init() {
 							}
 						}
 					}
-					if accepted {
+					// ... or the frame the reference finds in the stream as the receiver got it: a deleted checksum byte whose
+					// value the NEXT byte on the stream happens to have (the SOH of the following transfer, say) leaves an
+					// intact frame - the damage is to what follows, and that is judged on its own
+					if accepted || refOK[string(clean.b.tw.inbox[j])] {
 						c.Res.Distribution["excluded:reference-also-accepts"]++
 						continue
 					}
